@@ -15,7 +15,7 @@ Driver of C08. One request per line:
   pyidx <cps> <i>                Python's own `s[i]`     (`pyIndex`)
 
 Postfix tokens: `s:<cps>`  `c:<col>:<cps>`  `ls:<n>`  `tp:<n>`  `mk:<n>`  `add`  `iadd`
-`join:<l|t>:<n>` (stack: sep item1 … itemn)  `idx:<i>`  `sl:<i|n>:<j|n>`  `fl:<n>`  `iter`  `dupiadd` (`x += x`)  `dupiaddl` (`x += [x]`).
+`join:<l|t>:<n>` (stack: sep item1 … itemn)  `idx:<i>`  `sl:<i|n>:<j|n>`  `fl:<n>`  `iter`  `joinit` (stack: sep a)  `dupiadd` (`x += x`)  `dupiaddl` (`x += [x]`).
 The program is turned into a `CHText.Expr` and handed to `CHText.eval` (the function the theorems
 are about).
 -/
@@ -52,6 +52,9 @@ def stepTok (st : List Expr) (tok : String) : Option (List Expr) :=
     | _ => none
   | ["iter"] => match st with
     | a :: rest => some (Expr.iter a :: rest)
+    | _ => none
+  | ["joinit"] => match st with       -- `sep.join(a)`, the text / chunk `a` is the iterable
+    | a :: sep :: rest => some (Expr.joinIt sep a :: rest)
     | _ => none
   | ["dupiadd"] => match st with      -- `x += x`: the operand is the target (a snapshot = the value)
     | a :: rest => some (Expr.iadd a a :: rest)
@@ -100,8 +103,11 @@ def showChunk (c : Chunk) : String := toString c.col ++ ":" ++ showCpsR c.text
 def showChunks (cs : List Chunk) : String :=
   if cs.isEmpty then "-" else "/".intercalate (cs.map showChunk)
 
+/-- the `X` part of a reply is `str(x)` read back into cells by the harness; when the content itself
+holds an ESC character that reading is not defined and both sides print `~` -/
 def showCells (cs : Cells) : String :=
-  rle (cs.map fun x => toString x.1.toNat ++ "." ++ toString x.2)
+  if cs.any (fun x => x.1.toNat == 27) then "~"
+  else rle (cs.map fun x => toString x.1.toNat ++ "." ++ toString x.2)
 
 mutual
 def showPart : Part → String
